@@ -64,9 +64,16 @@ impl<'a> vstd::std_specs::convert::TryFromSpecImpl<&'a [u8]> for Request {
 // ---- well-formed extended-length U2F request frames, written from the U2F raw message format (C17):
 //      CLA=0 | INS | P1 | P2 | 0x00 Lc1 Lc2 | data     (bytes 3..7 read as one big-endian length, P2 = 0)
 pub open spec fn be32(s: Seq<u8>, o: int) -> int { s[o] as int * 16777216 + s[o + 1] as int * 65536 + s[o + 2] as int * 256 + s[o + 3] as int }
-pub open spec fn wf_register(v: Seq<u8>) -> bool { v.len() == 7 + 64 && v[0] == 0 && v[1] == 1 && be32(v, 3) == 64 }
-pub open spec fn wf_authenticate(v: Seq<u8>) -> bool { v.len() >= 7 + 65 && v[0] == 0 && v[1] == 2 && (v[2] == 3 || v[2] == 7 || v[2] == 8) && be32(v, 3) == v.len() - 7 && v.len() - 7 == 65 + v[71] as int }
-pub open spec fn wf_version(v: Seq<u8>) -> bool { v.len() == 7 && v[0] == 0 && v[1] == 3 && be32(v, 3) == 0 }
+// well-formed extended-length request frames, from the U2F raw message format (section "Request message framing",
+// extended length encoding): CLA INS P1 P2, then -- with request data of Nc > 0 bytes -- 00 LC1 LC2, the data and an
+// optional LE1 LE2; without request data LC is omitted and the frame ends with 00 LE1 LE2 (any Ne, 0 meaning 65536).
+// CLA = 0, P2 = 0; register: Nc = 64; authenticate: Nc = 65 + key handle length, P1 in {3, 7, 8}; version: Nc = 0.
+pub open spec fn wf_head(v: Seq<u8>, ins: u8, nc: int) -> bool {
+    v.len() >= 7 && v[0] == 0 && v[1] == ins && v[3] == 0 && v[4] == 0 && v[5] as int * 256 + v[6] as int == nc && (v.len() == 7 + nc || v.len() == 7 + nc + 2)
+}
+pub open spec fn wf_register(v: Seq<u8>) -> bool { wf_head(v, 1, 64) }
+pub open spec fn wf_authenticate(v: Seq<u8>) -> bool { v.len() >= 7 + 65 && (v[2] == 3 || v[2] == 7 || v[2] == 8) && wf_head(v, 2, 65 + v[71] as int) }
+pub open spec fn wf_version(v: Seq<u8>) -> bool { v.len() == 7 && v[0] == 0 && v[1] == 3 && v[3] == 0 && v[4] == 0 }
 //@ extract cmd impl TryFrom<&[u8]> for Request
 } // verus!
 fn main() {}
